@@ -14,10 +14,12 @@ for part, d in zip(parts[1:], docs[1:]):
     for k, v in c.get("classes", {}).items():
         cov.setdefault("classes", {})[k] = cov.get("classes", {}).get(k, 0) + v
     for k, v in c.get("engines", {}).items():
-        cov.setdefault("engines", {})[k + "(" + label + " build)"] = v
+        cov.setdefault("engines", {})[k + ("" if label.startswith("longcall") else "(" + label + " build)") + (" [unoptimised build]" if label == "longcalldev" else "")] = v
     cov["samples"] = (cov.get("samples", []) + c.get("samples", []))[:8]
     cov["zeroize_build"] = cov.get("zeroize_build", False) or c.get("zeroize_build", False)
     cov["builds"] = cov.get("builds", [base["coverage"].get("build", "default")]) + [c.get("build", label)]
+    if "long_call_bytes" in c:
+        cov["long_call_bytes"] = cov.get("long_call_bytes", 0) + c["long_call_bytes"]
     base["wall_s"] += d["wall_s"]
     base["violations"] += d["violations"]
 cov["distinct_nontrivial_note"] = "sum over the parts: a part is a (build of the mode crates) and the same decoded case on another build is a different evaluation; within a part the count is of distinct hashes of decoded values"
